@@ -132,6 +132,26 @@ def finding_scenarios(base_id):
     return [a, b, c]
 
 
+def seek_to_committed_scenarios(base_id):
+    """seek_to_committed() is an explicit seek: right afterwards the position is the committed offset it returned - for
+    every committed offset inside the log, 0 included - and the next record comes from there"""
+    out = []
+    log = [data(3), data(3), data(3)]
+    k = base_id
+    for committed in (0, 1, 4, 8):
+        for mode in ("group", "group_assign"):
+            for policy in ("earliest", "latest", "none"):
+                out.append({"id": k, "seed": k, "brokers": 1, "partitions": 1, "iso": 0, "policy": policy, "mode": mode,
+                            "logs": {"0": copy.deepcopy(log)}, "log_start": {"0": 0}, "committed": {"0": committed},
+                            "faults": {}, "consume": 3,
+                            # the application reads three records, then goes back to what the group has committed
+                            "inject": {"after_kind": "c_committed_resp", "p": 0, "kind": "seek_committed", "to": committed,
+                                       "delay": 0.3},
+                            "drain": 20.0, "family": "seek-to-committed"})
+                k += 1
+    return out
+
+
 def oor_inflight_scenarios(base_id):
     """a user seek landing while a Fetch at an out-of-range position is in flight: the OFFSET_OUT_OF_RANGE reply
     that arrives afterwards concerns an abandoned offset and must not reset or fail the sought position"""
@@ -343,6 +363,11 @@ def monitor(ck, sc, r):
             viol(f"{errs[0].get('exc', 'an error')} was buffered for partition {errs[0].get('p')} but the caller parked in "
                  f"getone() was not woken for {tb[0] - errs[0]['t']:.1f} s", errs[0].get("p"),
                  {"error_event": errs[0]}, sig="sim:buffered-error-does-not-wake-getone")
+    for e in r["trace"]:
+        if e["ev"] == "a_seek_committed" and e.get("committed") is not None and e.get("position") != e["committed"]:
+            viol(f"seek_to_committed() returned offset {e['committed']} but the position right afterwards is "
+                 f"{e.get('position')}: the explicit seek did not take effect", e.get("p"), {"event": e},
+                 sig="sim:seek-to-committed-ignored")
     if r.get("fetch_task_done"):
         viol("the background fetch routine terminated", None, sig="sim:fetch-routine-died")
     for p in range(sc["partitions"]):
@@ -658,6 +683,7 @@ def run(ck: Check):
     bases += oor_inflight_scenarios(160000)
     bases += late_comer_scenarios(170000)
     bases += blocked_caller_scenarios(180000)
+    bases += seek_to_committed_scenarios(190000)
     bases += [gen_base(rng, i) for i in range(ck.n(100, 700))]
     t0 = _t.time()
     results = c03.run_scenarios(bases, timeout=ck.n(600, 2400), script="c13_sim.py")
